@@ -107,7 +107,7 @@ Definition strip (s : str) : str := rstrip (lstrip s).
 (* strip with an explicit character set *)
 Fixpoint lstrip_set (p : ch -> bool) (s : str) : str :=
   match s with [] => [] | c :: r => if p c then lstrip_set p r else s end.
-Definition strip_set (p : ch -> bool) (s : str) : str := rv (lstrip_set p (rv (lstrip_set p s))).
+Definition strip_set (p : ch -> bool) (s : str) : str := rev (lstrip_set p (rev (lstrip_set p s))).
 
 Fixpoint starts_with (p s : str) : bool :=
   match p, s with
